@@ -32,3 +32,6 @@ GROUPS += [
     Group("lib/chgrange_b", "lib_sense.c", tus=LIB, model=MODEL, defines=["FN_chgrange"], dfcc=False, unwind=6, kind="bounded", bound=SB, flags=["--no-malloc-may-fail"],
           functions=["ILLlib_chgrange"], props=["C06", "C05", "C07", "C17"]),
 ]
+
+GROUPS.append(lib("solution", ["C01", "C05", "C17"], loops="lib.json", nloops=6, fn="solution", unwindset=["mpq_ILLlib_solution.%d:1" % k for k in range(4, 12)],
+                  assumed=["lib/solution: only the cache branch (C != NULL, cache dimensions equal to the problem's); the branch that asks the simplex for its current solution is unreachable under this precondition"]))
